@@ -162,6 +162,8 @@ class World:
         self.outcome = None       # ("exit", status) | ("crash", repr) | ("done",) | ("error", repr)
         self.events = []          # oracle-side log: (kind, ...)
         self.nlabels = 0
+        self.in_script = True
+        self.script_labels = None  # number of executed labels that came from the script (the rest is the tail)
         self.stopping_at = None   # number of labels executed when stop() was first entered
 
     # ---- kernel ------------------------------------------------------------------------------------
@@ -217,7 +219,11 @@ class World:
         while True:
             if self.script:
                 lab = self.script.pop(0)
+                self.in_script = True
             elif self.policy is not None:
+                if self.in_script:
+                    self.in_script = False
+                    self.script_labels = len(self.resolved)
                 lab = self.policy(self)
                 if lab is None:
                     raise Done()
@@ -518,6 +524,8 @@ class World:
                 self.cur = (99, 0, 0)
                 self.outcome = ("error", "%s: %s" % (type(e).__name__, e))
             self.active = False
+            if self.script_labels is None:
+                self.script_labels = len(self.resolved)
             if self.pending_obs:
                 self.snap()
             self.snap()                          # final observation
@@ -574,9 +582,10 @@ FATAL = (int(_signal.SIGTERM), int(_signal.SIGQUIT), int(_signal.SIGABRT), int(_
 
 
 def make_settle(loops):
-    """Policy used after the scripted part of a schedule: before every master step, every running child that
-    was told to stop exits (status 0), SIGCHLD is delivered if there is a zombie, and - when the master is about
-    to sleep or to start a timeout scan - every running worker notifies.  Ends after `loops` further visits of
+    """Policy used after the scripted part of a schedule (mirrors fair_env / settle_labels of Model/Arbiter.v):
+    at the top of the main loop (and in the naps of stop()) every running child that was told to stop exits
+    with status 0 and SIGCHLD is delivered if there is anything to reap; when the master is about to sleep in
+    select() every running worker notifies; then the master takes a step.  Ends after `loops` further visits of
     the top of the main loop."""
     box = {"q": [], "loops": loops, "seen_top": 0}
 
@@ -588,18 +597,16 @@ def make_settle(loops):
             box["seen_top"] += 1
             if box["seen_top"] > box["loops"]:
                 return None
-        if code in (Y_EXIT, Y_CRASH):
-            return None
         q = []
-        for k in world.kids:
-            if k["st"] == "R" and any(s in FATAL for s in k["sigs"]):
+        if code == Y_QLEN or (code == Y_SLEEP and world.stopping_at is not None):
+            dying = [k for k in world.kids if k["st"] == "R" and any(s in FATAL for s in k["sigs"])]
+            for k in dying:
                 q.append(("X", k["pid"], 0))
-        dying = set(x[1] for x in q)
-        if dying or any(k["st"] == "Z" for k in world.kids):
-            q.append(("C",))
-        if code in (Y_SELECT, Y_WITEMS):
+            if dying or any(k["st"] == "Z" for k in world.kids):
+                q.append(("C",))
+        elif code == Y_SELECT:
             for k in world.kids:
-                if k["st"] == "R" and not k["master"] and k["pid"] not in dying:
+                if k["st"] == "R" and not k["master"]:
                     q.append(("N", k["pid"]))
         q.append(("M",))
         box["q"] = q
@@ -621,3 +628,18 @@ def init_expr(cfg):
 
 def labels_expr(labels):
     return "[" + "; ".join(coq_label(l) for l in labels) + "]"
+
+
+def tail_expr(cfg, w):
+    """the schedule of a finished World as a Coq expression: the scripted part as executed, then the tail as
+    generated by the model's own fair environment (settle_labels); environment labels after the last master step
+    of the tail (the master died inside a handler) are passed as executed"""
+    k = w.script_labels
+    tail = w.resolved[k:]
+    ntail = sum(1 for l in tail if l[0] == "M")
+    last = max([i for i, l in enumerate(tail) if l[0] == "M"], default=-1)
+    rest = tail[last + 1:]
+    e = "(with_tail %s %s %d%%nat)" % (init_expr(cfg), labels_expr(w.resolved[:k]), ntail)
+    if rest:
+        e = "(%s ++ %s)" % (e, labels_expr(rest))
+    return e
